@@ -215,7 +215,11 @@ func sendPacket(l *NDNLPLinkService, out dispatch.OutPkt) {
 			if err != nil {
 				core.LogFatal(l, "Unexpected Wire reading error")
 			}
-			fragments[i] = &spec.LpPacket{Fragment: frag}
+			fragments[i] = &spec.LpPacket{
+				Fragment:  frag,
+				FragIndex: utils.IdPtr(uint64(i)),
+				FragCount: utils.IdPtr(uint64(nFragments)),
+			}
 		}
 	} else {
 		fragments = []*spec.LpPacket{{Fragment: enc.Wire{wire}}}
